@@ -78,6 +78,7 @@ func init() {
 			add(ShutdownParams{Case: "earlyclose", Checkpoint: "auto", Mitigation: true, Health: true, Membership: "static", MaxPoint: 4}, 1)
 			add(ShutdownParams{Case: "earlyclose", Checkpoint: "auto", Membership: "couchbase", APIInfo: true, MaxPoint: 4}, 1)
 			add(ShutdownParams{Case: "slowmitigationstart", Checkpoint: "auto", Mitigation: true, Membership: "static", MaxPoint: 8}, 1)
+			add(ShutdownParams{Case: "windowack", Checkpoint: "auto", Membership: "static", MaxPoint: 4}, 1)
 			add(ShutdownParams{Case: "duringstart", Checkpoint: "auto", Mitigation: true, Health: true, Membership: "static", MaxPoint: 120}, 4)
 			add(ShutdownParams{Case: "duringstart", Checkpoint: "auto", Health: true, Membership: "dynamic", MaxPoint: 120}, 4)
 			add(ShutdownParams{Case: "slowfailsave", Checkpoint: "auto", Membership: "static", MaxPoint: 6}, 1)
@@ -223,7 +224,7 @@ func shutdownMain(p ShutdownParams) {
 	o.CheckpointType = p.Checkpoint
 	o.Mitigation = p.Mitigation
 	o.MembershipType = p.Membership
-	o.AutoAck = true
+	o.AutoAck = p.Case != "windowack"
 	o.CheckpointInterval = 10 * time.Second
 	o.CheckpointTimeout = 5 * time.Second
 	o.RebalanceDelay = 20 * time.Second
@@ -332,6 +333,25 @@ func shutdownMain(p ShutdownParams) {
 	vrt.Window(true)
 	switch p.Case {
 	case "idle":
+		doClose()
+	case "windowack":
+		// a consumer that acknowledges asynchronously: the last event is acknowledged AFTER a rebalance has closed
+		// the stream, Close() arrives k seconds later, still inside the rebalance delay: the position is settled
+		// before the call, so it is in the store afterwards
+		ackEv := func(vb uint16, seq uint64) {
+			for _, d := range e.Cons.Events {
+				if d.Vb == vb && d.Seq == seq && !d.Acked {
+					d.Acked = true
+					d.Ctx.Ack()
+				}
+			}
+		}
+		ackEv(0, 1)
+		ackEv(1, 1)
+		dcpStream(e).Rebalance()
+		vrt.Sleep(2 * time.Second)
+		ackEv(0, 2)
+		vrt.Sleep(time.Duration(k) * time.Second)
 		doClose()
 	case "duringstart":
 		// at every scheduling point of Start() before (and just after) readiness; the request is queued and
